@@ -127,6 +127,15 @@ def oracle(ck, tier, deep):
         want = np.where(dom, f(r), 0.0)
         # size of the terms involved
         scale = np.abs(c) @ ((max(abs(rmax), r[-1], 1) + abs(r0)) / abs(s)) ** np.arange(K + 1) + 1e-300
+        # coefficients are amplitudes in the caller's units: scaling all of them by 1e-10 or 1e-30 scales func and abel alike (no coefficient is
+        # "zero" because it is small)
+        for fac in (1e-10, 1e-30, 1e12):
+            ps = quiet(Polynomial, r, rmin, rmax, c * fac, r_0=r0, s=s, reduced=reduced)
+            scl = scale * max(1.0, rmax)            # (size of the terms that cancel in abel)
+            if np.abs(ps.abel / fac - p.abel).max() > 1e-9 * scl or np.abs(ps.func / fac - p.func).max() > 1e-9 * scl:
+                ck.violation(dict(sig, clause="coefficient-scale"), dict(rep, factor=fac),
+                             f"coefficients x {fac:g}: func / abel are not the scaled arrays (abel off by {np.abs(ps.abel / fac - p.abel).max():.3g} of {scl:.3g})")
+                break
         if np.abs(p.func - want).max() > 1e-10 * scale:
             ck.violation(dict(sig, clause="func"), rep, f"func differs from the polynomial on [r_min, r_max) by {np.abs(p.func - want).max():.3g} (terms ~{scale:.3g})")
         for i in sorted({0, int(rng.integers(0, len(r))), int(rng.integers(0, len(r))), len(r) - 1}):
@@ -351,7 +360,7 @@ def oracle(ck, tier, deep):
     a, b = np.array([1.0, 2.0]), np.array([0.5, 0.25, 4.0])
     ck.count("S.angular.sub-order", suite="S.angular")
     d = (Angular(a) - Angular(b)).c
-    if not np.allclose(d, [0.5, 1.75, -4.0]):
+    if np.shape(d) != (3,) or not np.allclose(d, [0.5, 1.75, -4.0]):
         ck.violation(dict(site="Angular", clause="difference-order"), dict(a=a.tolist(), b=b.tolist(), got=d.tolist()),
                      f"Angular(a) - Angular(b) with len(a) < len(b) returned {d.tolist()}, expected [0.5, 1.75, -4.0]")
     # radial x angular: the outer product of radial coefficients (any list-like: list, tuple, float or integer array) with the angular ones,
@@ -397,6 +406,8 @@ def oracle(ck, tier, deep):
     # of tol (F34: 1.37e-3..1.43e-3, 5.6e-3..5.7e-3, 1.85e-2..2.07e-2 before the fix), which a few random draws rarely hit
     nl = 250 if not deep else 2500
     tols += [float(t) for t in np.exp(np.log(1e-5) + (np.arange(nl) + rng.uniform()) / nl * (np.log(5e-2) - np.log(1e-5)))]
+    # … and far tighter than the documented table goes (hundreds of nodes per side: no cap on their number may cut the node search short)
+    tols += [1e-6, 2e-7, 3e-8] if not deep else [1e-6, 5e-7, 2e-7, 1e-7, 3e-8, 1e-8]
     for tol in tols:
         ck.count(("S.gauss", tol), suite="S.approx-gaussian")
         ag = quiet(ApproxGaussian, tol)
